@@ -551,7 +551,7 @@ class Search:
                                                              'suffix': [list(x) for x in suf], 'serial_a': ser, 'serial_b': ser, 'id': i, 'clause': tag}))
                     if len(outs) < 2:
                         continue
-                    if outs[0] != outs[1]:
+                    if outs[0] != outs[1] and not any(b[1]['hist_b'] == [list(map(_jsonable, c)) for c in hist_b] for b in bad):
                         k = next((n for n in range(min(len(outs[0][1]), len(outs[1][1]))) if outs[0][1][n] != outs[1][1][n]), None)
                         ha = ' | '.join(proto.ev_str(e) for e in self.sym_history(tgt)) or '-'
                         hb = ' | '.join(proto.ev_str(e) for e in self.sym_history(frm) + [ev])
@@ -559,7 +559,6 @@ class Search:
                                 % (ha, hb, proto.ev_str(suf[k]) if k is not None else 'end', list(outs[0][1][k]) if k is not None else outs[0][0], list(outs[1][1][k]) if k is not None else outs[1][0]))
                         bad.append((text, {'engine': 'E1-merge', 'conf': self.conf, 'hist_a': [list(map(_jsonable, c)) for c in hist_a], 'hist_b': [list(map(_jsonable, c)) for c in hist_b],
                                            'suffix': [list(e) for e in suf], 'serial_a': ser_a, 'serial_b': ser_b, 'id': i}))
-                        break
         finally:
             srv.close()
         return len(pairs), bad
